@@ -272,7 +272,10 @@ def obligations(tier, seed):
     frag = [pool.Skeleton("fragment/%d" % i, t, meta={"rule": None}) for i, t in enumerate(FRAGMENTS)]
     eof = poolfam.eof_skeletons()
     jobs = []
-    for sk in sks + frag + eof:
+    base = sks + frag + eof
+    if quick:
+        base = rnd.sample(sks, min(len(sks), 90)) + frag + eof
+    for sk in base:
         for pos, text in _positions(sk.text, 0):
             s2 = pool.Skeleton("%s@%s" % (sk.sid, pos), text, lits=sk.lits, tape=sk.tape, meta=sk.meta)
             if sk.meta.get("rule"):
